@@ -40,8 +40,8 @@ PROPS["C02"] = dict(
 
 PROPS["C03"] = dict(
     level="proof",
-    verus=["c02_dispatch", "c03_parse_mask", "c03_apply_options", "c03_option_text", "c03_check_options", "c05_optimizer", "c06_matches", "c04_precedence", "c12_request", "c12_classify"],
-    labels=["C03.", "C05.select.", "C04.check.unsupported", "C12.new.third_party", "C12.new.classify", "C12.preparsed.", "C12.classify."] + MASK,
+    verus=["c02_dispatch", "c03_parse_mask", "c03_apply_options", "c03_option_text", "c03_check_options", "c05_optimizer", "c06_matches", "c04_precedence", "c12_request", "c12_classify", "c01_get_tokens"],
+    labels=["C03.", "C05.select.", "C04.check.unsupported", "C12.new.third_party", "C12.new.classify", "C12.preparsed.", "C12.classify.", "C01.get_tokens."] + MASK,
     witness=["c12_requests.rs"],
     kani=[KaniSet("src/filters/network_matchers.rs", "c03_options.rs", [
         Harness("c03_options_nodomain", "C03.options.nodomain", "C", "full domain: 2^32 masks x 17 request types x scheme x party; loop-free"),
@@ -65,8 +65,8 @@ PROPS["C03"] = dict(
 
 PROPS["C04"] = dict(
     level="proof",
-    verus=["c04_partition", "c04_precedence", "c04_ids", "c01_lookup", "c05_optimizer"],
-    labels=["C04.", "C01.check", "C05.fusion.", "C05.key.", "C05.select."] + MASK,
+    verus=["c04_partition", "c04_precedence", "c04_ids", "c01_lookup", "c05_optimizer", "c01_get_tokens", "c01_index"],
+    labels=["C04.", "C01.check", "C05.fusion.", "C05.key.", "C05.select.", "C01.get_tokens.", "C01.index."] + MASK,
     witness=["c04_precedence.rs", "c07_tags.rs"],
     kani=[KaniSet("src/filters/network.rs", "c04_ids.rs", [
         Harness("c04_id_twin", "C04.id.twin", "B", "twin of C04.id.all_components: strings <= 2 ASCII chars, domain lists <= 2 hashes, symbolic 32-bit mask (unwind 4, unwinding assertions on)"),
@@ -99,7 +99,7 @@ PROPS["C06"] = dict(
 PROPS["C07"] = dict(
     level="proof",
     verus=["c01_lookup", "c04_partition", "c04_precedence", "c10_engine", "c05_optimizer", "c03_apply_options", "c08_wire"],
-    labels=["C07.", "C05.key.", "C01.check", "C03.apply_options.", "C08.wire.roundtrip_fields", "C08.wire.ser_fields", "C08.wire.de_fields", "C04.check.important", "C04.check.matched", "C04.check.exception", "C04.new.importants", "C04.new.exceptions", "C04.new.tagged", "C04.new.csp"] + MASK,
+    labels=["C07.", "C05.key.", "C01.check", "C06.add_filter.", "C03.apply_options.", "C08.wire.roundtrip_fields", "C08.wire.ser_fields", "C08.wire.de_fields", "C04.check.important", "C04.check.matched", "C04.check.exception", "C04.new.importants", "C04.new.exceptions", "C04.new.tagged", "C04.new.csp"] + MASK,
     kani=[],
     witness=["c07_tags.rs"],
     trusted=["R6: the filter/clone iterator chain in tags_with_set computes the stated sub-sequence",
